@@ -7,12 +7,14 @@
 #include "pbt.hpp"
 #include "nngh.h"
 #include "rawpeer.h"
+#include "wsref.hpp"
+#include <nng/http.h>
 #include <unistd.h>
 
 namespace {
 
-enum { K_SLEEP, K_RECV_PAIR, K_RECV_PULL, K_RECV_SUB, K_RECV_REP, K_RECV_BUS, K_SEND_PUSH, K_SEND_PAIR, K_RECV_REQCTX, K_DIAL, K_DEVICE, K_RECV_SURVEYOR, K_STREAM_RECV, K_STREAM_SEND, K_STREAM_ACCEPT, K_NKINDS };
-static const char *kKindName[] = {"sleep", "recv_pair", "recv_pull", "recv_sub", "recv_rep", "recv_bus", "send_push", "send_pair", "recv_reqctx", "dial", "device", "recv_surveyor", "stream_recv", "stream_send", "stream_accept"};
+enum { K_SLEEP, K_RECV_PAIR, K_RECV_PULL, K_RECV_SUB, K_RECV_REP, K_RECV_BUS, K_SEND_PUSH, K_SEND_PAIR, K_RECV_REQCTX, K_DIAL, K_DEVICE, K_RECV_SURVEYOR, K_STREAM_RECV, K_STREAM_SEND, K_STREAM_ACCEPT, K_HTTP_TRANSACT, K_WS_DIAL, K_NKINDS };
+static const char *kKindName[] = {"sleep", "recv_pair", "recv_pull", "recv_sub", "recv_rep", "recv_bus", "send_push", "send_pair", "recv_reqctx", "dial", "device", "recv_surveyor", "stream_recv", "stream_send", "stream_accept", "http_transact", "ws_dial"};
 
 struct Mon {
 	nng_aio   *aio = nullptr;
@@ -47,6 +49,15 @@ struct Mon {
 	int                  stream_port = 0;
 	int        lfd = -1;
 	std::string path;
+	// HTTP client transaction / WebSocket stream dial against a raw TCP server run by the harness
+	nng_http_client   *hcli = nullptr;
+	nng_http          *http = nullptr;
+	nng_url           *hurl = nullptr;
+	nng_stream_dialer *wsd  = nullptr;
+	std::vector<nng_stream *> dialed;
+	int                hvariant = 0;
+	int                hwrites  = 0; // responses written by the raw server so far
+	bool               closer_present = false;
 	const char *fail_sig = nullptr;
 	char        fail_msg[300];
 };
@@ -109,6 +120,29 @@ mon_cb(void *arg)
 		else
 			M->accepted.push_back(ns);
 	}
+	if (M->kind == K_WS_DIAL || M->kind == K_HTTP_TRANSACT)
+		vr_tagf("%s_rv_%s", kKindName[M->kind], rv == 0 ? "ok" : rv == NNG_ETIMEDOUT ? "timedout" : rv == NNG_ECANCELED ? "canceled" : rv == NNG_ECLOSED ? "closed" : "error");
+	if (M->kind == K_WS_DIAL && rv == 0) {
+		nng_stream *ns = (nng_stream *) nng_aio_get_output(M->aio, 0);
+		if (ns == nullptr)
+			mon_fail(M, "C02:success-without-output", "websocket dial completed with success but no stream");
+		else
+			M->dialed.push_back(ns);
+		if (M->hvariant % 3 != 0)
+			mon_fail(M, "C02:ws-dial-succeeded-on-refusal", "websocket dial succeeded although the server answered %s", M->hvariant % 3 == 1 ? "403" : "with a wrong accept key");
+	}
+	if (M->kind == K_HTTP_TRANSACT && rv == 0) {
+		int st = (int) nng_http_get_status(M->http);
+		if ((M->hvariant % 5 == 0 || M->hvariant % 5 == 1) && st != 200)
+			mon_fail(M, "C02:http-result", "transaction succeeded with status %d, the server sent 200", st);
+		if (M->hvariant % 5 >= 3 && M->hwrites <= 1) // (several truncated responses in a row can add up to a complete one)
+			mon_fail(M, "C02:http-result", "transaction succeeded although the response was %s", M->hvariant % 5 == 3 ? "malformed (bad chunk size)" : "cut short");
+		void  *body = nullptr;
+		size_t bl   = 0;
+		nng_http_get_body(M->http, &body, &bl);
+		if (M->hvariant % 5 <= 1 && (bl != 5 || memcmp(body, M->hvariant % 5 == 0 ? "hello" : "abcde", 5) != 0))
+			mon_fail(M, "C02:http-result", "transaction succeeded with a %zu-byte body, the server sent 5 bytes", bl);
+	}
 	if ((M->kind == K_STREAM_RECV || M->kind == K_STREAM_SEND) && rv == 0 && nng_aio_count(M->aio) == 0)
 		mon_fail(M, "C02:success-without-bytes", "%s completed with success and a count of 0", kKindName[M->kind]);
 	bool is_recv = M->kind == K_RECV_PAIR || M->kind == K_RECV_PULL || M->kind == K_RECV_SUB || M->kind == K_RECV_REP || M->kind == K_RECV_BUS || M->kind == K_RECV_REQCTX ||
@@ -134,7 +168,7 @@ mon_cb(void *arg)
 			nng_aio_set_msg(M->aio, NULL);
 		}
 	}
-	if (M->resub > 0 && rv != NNG_ESTOPPED && rv != NNG_ECLOSED) {
+	if (M->resub > 0 && rv != NNG_ESTOPPED && rv != NNG_ECLOSED && !(M->kind == K_HTTP_TRANSACT && rv != 0)) {
 		M->resub--;
 		submit(M); // re-submission from inside the callback
 	}
@@ -176,6 +210,13 @@ submit(Mon *M)
 		break;
 	}
 	case K_STREAM_ACCEPT: nng_stream_listener_accept(M->sl, M->aio); break;
+	case K_HTTP_TRANSACT:
+		nng_http_reset(M->http);
+		nng_http_set_method(M->http, "GET");
+		nng_http_set_uri(M->http, "/x", NULL);
+		nng_http_transact(M->http, M->aio);
+		break;
+	case K_WS_DIAL: nng_stream_dialer_dial(M->wsd, M->aio); break;
 	}
 }
 
@@ -260,6 +301,50 @@ actor_main(void *arg)
 			delete r;
 			break;
 		}
+		case K_HTTP_TRANSACT: { // the server answers (by Content-Length, chunked, or with garbage)
+			if (!M->have_raw)
+				break;
+			rp_pump(&M->raw);
+			static const char *resp[] = {"HTTP/1.1 200 OK\r\nContent-Length: 5\r\n\r\nhello",
+			    "HTTP/1.1 200 OK\r\nTransfer-Encoding: chunked\r\n\r\n3\r\nabc\r\n2\r\nde\r\n0\r\n\r\n", "HTTP/1.1 404 Not Found\r\nContent-Length: 0\r\n\r\n",
+			    "HTTP/1.1 200 OK\r\nTransfer-Encoding: chunked\r\n\r\nzz\r\n", "HTTP/1.1 200 OK\r\nContent-Length: 50\r\n\r\nshort"};
+			const char *r = resp[M->hvariant % 5];
+			M->hwrites++;
+			rp_write(&M->raw, r, strlen(r));
+			break;
+		}
+		case K_WS_DIAL: { // the server accepts the TCP connection and answers the upgrade request
+			if (M->lfd < 0)
+				break;
+			if (!M->have_raw) {
+				if (rp_accept(&M->raw, M->lfd, RP_TCP) != 0)
+					break;
+				M->have_raw = true;
+			}
+			for (int k = 0; k < 10; k++) {
+				rp_pump(&M->raw);
+				wsref::Bytes b(M->raw.rx, M->raw.rx + M->raw.rxlen);
+				size_t       he = wsref::head_end(b);
+				if (he == 0) {
+					vs_sleep(1);
+					continue;
+				}
+				wsref::Head h = wsref::parse_head(b, he);
+				rp_consume(&M->raw, NULL, he);
+				std::string key = h.get("Sec-WebSocket-Key");
+				std::string r;
+				switch (M->hvariant % 3) {
+				case 0:
+					r = "HTTP/1.1 101 Switching Protocols\r\nUpgrade: websocket\r\nConnection: Upgrade\r\nSec-WebSocket-Accept: " + wsref::accept_key(key) + "\r\n\r\n";
+					break;
+				case 1: r = "HTTP/1.1 403 Forbidden\r\nContent-Length: 0\r\n\r\n"; break;
+				default: r = "HTTP/1.1 101 Switching Protocols\r\nUpgrade: websocket\r\nConnection: Upgrade\r\nSec-WebSocket-Accept: bm90IHRoZSBrZXk=\r\n\r\n"; break;
+				}
+				rp_write(&M->raw, r.data(), r.size());
+				break;
+			}
+			break;
+		}
 		case K_SEND_PUSH:
 		case K_SEND_PAIR: { // a receiver shows up
 			nng_msg *m;
@@ -290,6 +375,13 @@ actor_main(void *arg)
 		case K_STREAM_RECV:
 		case K_STREAM_SEND: nng_stream_close(M->st); break;
 		case K_STREAM_ACCEPT: nng_stream_listener_close(M->sl); break;
+		case K_HTTP_TRANSACT: // the server goes away (the connection object itself is closed by its owner at the end)
+			if (M->have_raw) {
+				rp_close(&M->raw);
+				M->have_raw = false;
+			}
+			break;
+		case K_WS_DIAL: nng_stream_dialer_close(M->wsd); break;
 		case K_SLEEP: break;
 		case K_DEVICE: break;
 		default: nng_socket_close(M->s); break;
@@ -380,6 +472,57 @@ exec_c02(const vcase *vc)
 			H_OK(nng_pair1_open_raw(&M.dev2));
 		}
 		break;
+	case K_HTTP_TRANSACT: {
+		int port = 0;
+		M.lfd    = rp_listen_tcp(&port);
+		if (M.lfd < 0) {
+			nng_aio_free(M.aio);
+			h_end();
+			return 0;
+		}
+		char ub[96];
+		snprintf(ub, sizeof ub, "http://127.0.0.1:%d/x", port);
+		H_OK(nng_url_parse(&M.hurl, ub));
+		H_OK(nng_http_client_alloc(&M.hcli, M.hurl));
+		nng_aio *ca;
+		H_OK(nng_aio_alloc(&ca, NULL, NULL));
+		nng_http_client_connect(M.hcli, ca);
+		for (int k = 0; k < 50 && !M.have_raw; k++) {
+			vs_settle();
+			if (rp_accept(&M.raw, M.lfd, RP_TCP) == 0)
+				M.have_raw = true;
+			else
+				vs_sleep(1);
+		}
+		nng_aio_wait(ca);
+		if (nng_aio_result(ca) != 0 || !M.have_raw) {
+			nng_aio_free(ca);
+			nng_http_client_free(M.hcli);
+			nng_url_free(M.hurl);
+			close(M.lfd);
+			nng_aio_free(M.aio);
+			h_end();
+			return 0; // (no connection to be had: not the subject)
+		}
+		M.http = (nng_http *) nng_aio_get_output(ca, 0);
+		nng_aio_free(ca);
+		M.hvariant = (int) vop_arg(o, 4, 0);
+		break;
+	}
+	case K_WS_DIAL: {
+		int port = 0;
+		M.lfd    = rp_listen_tcp(&port);
+		if (M.lfd < 0) {
+			nng_aio_free(M.aio);
+			h_end();
+			return 0;
+		}
+		char ub[96];
+		snprintf(ub, sizeof ub, "ws://127.0.0.1:%d/x", port);
+		H_OK(nng_stream_dialer_alloc(&M.wsd, ub));
+		M.hvariant = (int) vop_arg(o, 4, 0);
+		break;
+	}
 	case K_STREAM_RECV:
 	case K_STREAM_SEND:
 	case K_STREAM_ACCEPT: {
@@ -580,7 +723,7 @@ exec_c02(const vcase *vc)
 		const vop *ag = &vc->ops[i];
 		if (strcmp(ag->name, "again") != 0)
 			continue;
-		if (M.freed || M.stop_returned || pre == 3 || M.fail_sig || M.kind == K_DEVICE || M.kind == K_DIAL)
+		if (M.freed || M.stop_returned || pre == 3 || M.fail_sig || M.kind == K_DEVICE || M.kind == K_DIAL || M.kind == K_HTTP_TRANSACT || M.kind == K_WS_DIAL)
 			break;
 		int idle = (int) vop_arg(ag, 0, 0);
 		if (idle == 1)
@@ -648,6 +791,18 @@ exec_c02(const vcase *vc)
 		if (M.have_raw)
 			rp_close(&M.raw);
 		free(M.bigbuf);
+	} else if (M.kind == K_HTTP_TRANSACT) {
+		nng_http_close(M.http);
+		nng_http_client_free(M.hcli);
+		nng_url_free(M.hurl);
+		if (M.have_raw)
+			rp_close(&M.raw);
+	} else if (M.kind == K_WS_DIAL) {
+		for (auto *ns : M.dialed)
+			nng_stream_free(ns);
+		nng_stream_dialer_free(M.wsd);
+		if (M.have_raw)
+			rp_close(&M.raw);
 	} else if (M.kind == K_DEVICE) {
 		nng_socket_close(M.s);
 		nng_socket_close(M.dev2);
@@ -676,7 +831,7 @@ gen_c02()
 	t << "cfg " << *pbt::range<int>(1, 1000000) << " " << mode << " " << (mode == 3 ? *gen::element(5, 20, 50) : *gen::element(10, 30, 60)) << " " << *pbt::range<int>(0, 3) << " " << (mode == 3 ? *gen::element(60, 150, 400) : 300) << " 0\n";
 	int T = *gen::element(1, 5, 20, 50);
 	t << "op " << *pbt::range<int>(0, K_NKINDS - 1) << " " << *pbt::welem<int>({{4, 0}, {1, 1}, {4, 2}, {1, 3}}) << " " << T << " " << *pbt::welem<int>({{5, 0}, {2, 1}, {1, 2}, {1, 3}}) << " "
-	  << *pbt::range<int>(0, 1) << "\n";
+	  << *pbt::range<int>(0, 5) << "\n";
 	int na = *pbt::range<int>(1, 4);
 	for (int i = 0; i < na; i++) {
 		int what = *pbt::welem<int>({{5, 0}, {4, 1}, {2, 2}, {4, 3}, {2, 4}, {4, 5}, {1, 6}});
